@@ -127,6 +127,30 @@ SCENARIOS = [
          text="def fn(items):\n    {X} = 0\n    for it in items:\n        {X} += it\n        if it:\n            {Y} = {X}\n    return {X} + {Y}\n\n\nprint(fn([1, 2]))\n",
          scopes=[("M", "none", "module"), ("F", "M", "function")],
          occ=[("X", "F", "store"), ("X", "F", "store"), ("Y", "F", "store"), ("X", "F", "load"), ("X", "F", "load"), ("Y", "F", "load")]),
+    dict(name="local_and_param", distinct=False,
+         text="def fn({Y}):\n    {X} = 5\n    return {X} + {Y}\n\n\nprint(fn(10))\n",
+         scopes=[("M", "none", "module"), ("F", "M", "function")],
+         occ=[("Y", "F", "param"), ("X", "F", "store"), ("X", "F", "load"), ("Y", "F", "load")]),
+    dict(name="inner_param_reads_outer", distinct=False,
+         text="def fn():\n    {X} = 5\n\n    def inner({Y}):\n        return {X} * 100 + {Y}\n\n    return inner(10)\n\n\nprint(fn())\n",
+         scopes=[("M", "none", "module"), ("F", "M", "function"), ("G", "F", "function")],
+         occ=[("X", "F", "store"), ("Y", "G", "param"), ("X", "G", "load"), ("Y", "G", "load")]),
+    dict(name="inner_kwonly_param", distinct=False,
+         text="def fn():\n    {X} = 7\n\n    def inner(*, {Y}=2):\n        return {Y} * 2\n\n    return inner() + {X}\n\n\nprint(fn())\n",
+         scopes=[("M", "none", "module"), ("F", "M", "function"), ("G", "F", "function")],
+         occ=[("X", "F", "store"), ("Y", "G", "param"), ("Y", "G", "load"), ("X", "F", "load")]),
+    dict(name="inner_posonly_param", distinct=False,
+         text="def fn():\n    {X} = 7\n\n    def inner({Y}, /):\n        return {Y} * 2\n\n    return inner(2) + {X}\n\n\nprint(fn())\n",
+         scopes=[("M", "none", "module"), ("F", "M", "function"), ("G", "F", "function")],
+         occ=[("X", "F", "store"), ("Y", "G", "param"), ("Y", "G", "load"), ("X", "F", "load")]),
+    dict(name="inner_vararg_param", distinct=False,
+         text="def fn():\n    {X} = 7\n\n    def inner(*{Y}):\n        return len({Y}) * 2\n\n    return inner(1, 2) + {X}\n\n\nprint(fn())\n",
+         scopes=[("M", "none", "module"), ("F", "M", "function"), ("G", "F", "function")],
+         occ=[("X", "F", "store"), ("Y", "G", "param"), ("Y", "G", "load"), ("X", "F", "load")]),
+    dict(name="lambda_param", distinct=False,
+         text="def fn():\n    {X} = 7\n    double = lambda {Y}: {Y} * 2\n    return double(2) + {X}\n\n\nprint(fn())\n",
+         scopes=[("M", "none", "module"), ("F", "M", "function"), ("G", "F", "function")],
+         occ=[("X", "F", "store"), ("Y", "G", "param"), ("Y", "G", "load"), ("X", "F", "load")]),
     dict(name="three_locals", distinct=False,
          text="def fn():\n    {X} = 1\n    {Y} = 2\n    {Z} = 3\n    return {X} * 100 + {Y} * 10 + {Z}\n\n\nprint(fn())\n",
          scopes=[("M", "none", "module"), ("F", "M", "function")],
